@@ -1212,3 +1212,6 @@ M('C20', 'sub-weighting of a product space drops the exponent', 'odl/space/pspac
                 np.asarray(self.weighting.array)[indices],
                 self.weighting.exponent)""",
   """            return np.asarray(self.weighting.array)[indices]""", 'ProductSpace.__getitem__')
+M('C06', 'PointwiseNorm derivative loses the explicit weighting', 'odl/operator/tensor_ops.py',
+  "        return PointwiseInner(self.domain, inner_vf, weighting=self.weights)",
+  "        return PointwiseInner(self.domain, inner_vf)", 'PointwiseNorm.derivative')
